@@ -8,6 +8,7 @@ package did
 import (
 	"errors"
 	"fmt"
+	"sync"
 
 	"github.com/hyperledger/aries-framework-go/pkg/common/log"
 	"github.com/hyperledger/aries-framework-go/pkg/doc/did"
@@ -27,6 +28,8 @@ var logger = log.New("aries-framework/store/did")
 // Store stores did doc.
 type Store struct {
 	store storage.Store
+	// saveLock makes "is the name free? then store" one step for the users of this store.
+	saveLock sync.Mutex
 }
 
 type provider interface {
@@ -53,6 +56,9 @@ func (s *Store) SaveDID(name string, didDoc *did.Doc) error {
 	if name == "" {
 		return errors.New("did name is mandatory")
 	}
+
+	s.saveLock.Lock()
+	defer s.saveLock.Unlock()
 
 	id, err := s.GetDIDByName(name)
 	if err != nil && !errors.Is(err, storage.ErrDataNotFound) {
